@@ -33,7 +33,7 @@ import props
 import pyleg
 
 KIND = "c15tool"
-N_CASES = {"quick": 200, "thorough": 2000}  # two merges per case => ~120 / ~1500 merges
+N_CASES = {"quick": 200, "thorough": 6000}  # two merges per case => ~120 / ~1500 merges
 W = 50000
 CHROMS = ["chr1", "chr2", "chrX", "a", "chr10"]
 SIZES = [1000, 50000, 50001, 60000, 100000, 100003, 150007, 260000]
